@@ -314,6 +314,8 @@ def callee_full_like(ex, st, args, kwargs, node):
 
 def callee_pd_index(ex, st, args, kwargs, node):
     x = args[0]
+    if type(x).__name__ == "LabelsRec":  # requested labels (contracts/factorize.py): the constructor keeps order and content
+        return type(x)("Index", x.labels, sorted_from=x.sorted_from)
     return x if isinstance(x, IndexRec) else IndexRec(x)
 
 
